@@ -65,7 +65,7 @@ func crashChild(args []string) {
 		os.Exit(3)
 	}
 	gowarc.VerifSetNow(time.Date(2021, 2, 3, 4, 5, 6, 0, time.UTC))
-	ng := &seqNames{dir: out}
+	ng := &seqNames{dir: out, ext: cfg["next"]}
 	wopts := []gowarc.WarcFileWriterOption{
 		gowarc.WithMaxFileSize(max), gowarc.WithCompression(comp), gowarc.WithFileNameGenerator(ng),
 		gowarc.WithMaxConcurrentWriters(1), gowarc.WithExpectedCompressionRatio(float64(rnum) / float64(rden)),
@@ -348,13 +348,28 @@ func kCrash(args []string) (string, string) {
 		suffix = ".gz"
 	}
 	idOf := func(p string) int {
-		b := strings.TrimSuffix(strings.TrimSuffix(filepath.Base(p), ".open"), suffix)
-		b = strings.TrimSuffix(strings.TrimPrefix(b, "w-"), ".warc")
-		n, _ := strconv.Atoi(b)
+		b := strings.TrimPrefix(filepath.Base(p), "w-")
+		k := 0
+		for k < len(b) && b[k] >= '0' && b[k] <= '9' {
+			k++
+		}
+		n, _ := strconv.Atoi(b[:k])
 		return n
 	}
+	// the names on disk: generated name + compression suffix (+ the in-progress suffix while open), nothing else
+	ext := cfg["next"]
+	if ext == "" {
+		ext = ".warc"
+	}
+	nameViol := ""
+	for n := range final {
+		want := fmt.Sprintf("w-%04d%s%s", idOf(n), ext, suffix)
+		if strings.TrimSuffix(n, ".open") != want {
+			nameViol = fmt.Sprintf("VIOL c12-final-name file %s on disk, the generated name with its suffixes is %s", n, want)
+		}
+	}
 	// canonical effect string, consecutive writes merged; and the walk over all crash states
-	viol := ""
+	viol := nameViol
 	var toks []string
 	written := map[string]int64{} // path (current name) -> bytes so far
 	ackIdx := 0
@@ -534,6 +549,10 @@ func genCrash(r *rng, n int, tier string, emit func(string, ...string)) {
 			max = r.rangeInt(300, 1800)
 		}
 		cfg := fmt.Sprintf("max=%d;comp=%s;info=%s;rnum=1;rden=2;flush=%s", max, tf(comp), tf(info), tf(r.chance(1, 2)))
+		if r.chance(1, 5) {
+			// generated names that contain the text of the in-progress suffix before their end
+			cfg += ";next=" + pick(r, []string{".opendata.warc", ".open.warc", ".openstack.internal.warc"})
+		}
 		stat("crash-cfg", fmt.Sprintf("comp=%s,info=%s", tf(comp), tf(info)))
 		var ops []string
 		total := 0
